@@ -6,7 +6,7 @@
 (* model's.                                                                  *)
 EXTENDS Txn, TraceBase
 
-tvars == <<curVer, txns, lastCommit, commits, l, sid, used>>
+tvars == <<curVer, txns, lastCommit, commits, l, sid, used, failed>>
 
 ObsOK ==
     LET o == Ev.obs IN
@@ -20,12 +20,13 @@ ObsOK ==
 
 TInit == XInit /\ TBInit
 T_Reset == ResetBook /\ curVer' = 1 /\ txns' = <<>> /\ lastCommit' = [x \in Entities |-> 0] /\ commits' = <<>>
+T_Fail == FailBook /\ curVer' = 1 /\ txns' = <<>> /\ lastCommit' = [x \in Entities |-> 0] /\ commits' = <<>>
 T_Begin == IsEv("Begin") /\ Begin(Ev.iso) /\ Ev.fresh /\ ObsOK /\ Same
 T_Write == IsEv("Write") /\ Write(Ev.t, Ev.x) /\ ObsOK /\ Same
 T_Commit == IsEv("Commit") /\ Commit(Ev.t, Ev.res = "ok") /\ (Ev.res = "ok" => Ev.ver = curVer') /\ ObsOK /\ Same
 T_Abort == IsEv("Abort") /\ Abort(Ev.t, Ev.res = "ok") /\ ObsOK /\ Same
 T_Gc == IsEv("Gc") /\ Gc /\ ObsOK /\ Same
 
-TNext == T_Reset \/ T_Begin \/ T_Write \/ T_Commit \/ T_Abort \/ T_Gc
+TNext == T_Fail \/ T_Reset \/ T_Begin \/ T_Write \/ T_Commit \/ T_Abort \/ T_Gc
 TSpec == TInit /\ [][TNext]_tvars
 =============================================================================
